@@ -152,6 +152,7 @@ pub fn step_destroy_direct<M: MArch, const N: usize>(kind: u8, paths: u8) {
 
 harness! { fn c01_base_foo_0() unwind(2) { base::<w1::Foo, 0>() } }
 harness! { fn c01_base_foo_1() unwind(3) { base::<w1::Foo, 1>() } }
+harness! { fn c01_base_foo_2() unwind(4) { base::<w1::Foo, 2>() } }
 harness! { fn c01_base_foo_3() unwind(5) { base::<w1::Foo, 3>() } }
 harness! { fn c01_base_tri_2() unwind(4) { base::<w3::Tri, 2>() } }
 
